@@ -6,7 +6,6 @@ import math
 
 from engine import ir, dtable, match, skel, cfg as cfgm
 from engine.ir import kids, strip_casts, const_int, ref_of
-from rules.c15 import flatten_switch
 
 DIGESTS = {
     "MD5": dict(file="tlx/digest/md5.cpp", block=64, L=8, endian="little", words=4, wbytes=4, pfx="md5"),
@@ -16,82 +15,174 @@ DIGESTS = {
 }
 
 
-# ---------------------------------------------------------------- linear forms
-def lin(e, env):
-    """linear form {sym: coef, 1: const}; env: decl id / field name -> linear form"""
-    e = strip_casts(e)
-    c = const_int(e)
-    if c is not None and e["k"] in ("IntegerLiteral", "UnaryExprOrTypeTraitExpr"):
-        return {1: c} if c else {}
-    if e["k"] == "DeclRefExpr":
-        did = e["ref"]["id"]
-        if did in env:
-            return dict(env[did])
-        if c is not None:
-            return {1: c}
-        return {("v", did, e["ref"]["name"]): 1}
-    f = match.this_field(e)
-    if f:
-        return dict(env.get(f, {("f", f): 1}))
-    sh = match.binop(e, ("<<",))
-    if sh and e["k"] == "BinaryOperator" and const_int(sh[2]) is not None:
-        l = lin(sh[1], env)
-        return None if l is None else {s_: v << const_int(sh[2]) for s_, v in l.items()}
-    b = match.binop(e, ("+", "-", "*"))
-    if b and e["k"] == "BinaryOperator":
-        l, r = lin(b[1], env), lin(b[2], env)
-        if l is None or r is None:
-            return None
-        if b[0] == "*":
-            if set(l) <= {1}:
-                k = l.get(1, 0)
-                return {s: k * v for s, v in r.items() if k * v}
-            if set(r) <= {1}:
-                k = r.get(1, 0)
-                return {s: k * v for s, v in l.items() if k * v}
-            return None
-        out = dict(l)
-        for s, v in r.items():
-            out[s] = out.get(s, 0) + (v if b[0] == "+" else -v)
-        return {s: v for s, v in out.items() if v}
+# ---------------------------------------------------------------- process() / finalize() on a byte model
+IN_BASE, STATE_BASE, OUT_BASE, LOCAL_BASE, TABLE_BASE = 100000, 50000, 200000, 300000, 400000
+LOCAL_STRIDE = 2048
+
+
+def is_state_label(x):
+    return isinstance(x, tuple) and len(x) == 3 and x[0] == "S"
+
+
+def word_alg(op, a, b, e):
+    """byte extraction from a state word that is a label: (S >> 8k) & 255 -> ("byte", S, k); anything else is data (None)"""
+    if op == ">>" and isinstance(b, int) and not isinstance(b, bool) and b >= 0:
+        if is_state_label(a):
+            return ("shr", a, b)
+        if isinstance(a, tuple) and a and a[0] == "shr":
+            return ("shr", a[1], a[2] + b)
+        return None
+    if op == "&":
+        if isinstance(a, int) and not isinstance(a, bool):
+            a, b = b, a
+        if isinstance(b, int) and not isinstance(b, bool) and b == 255:
+            return as_byte(a)
     return None
 
 
-def ladd(a, b, k=1):
-    out = dict(a)
-    for s, v in b.items():
-        out[s] = out.get(s, 0) + k * v
-    return {s: v for s, v in out.items() if v}
+def as_byte(v):
+    """what a value is once it sits in a byte cell (truncation to the low 8 bits); None: not understood"""
+    if isinstance(v, bool):
+        return int(v)
+    if isinstance(v, int):
+        return v & 255
+    if is_state_label(v):
+        return ("byte", v, 0)
+    if isinstance(v, tuple) and v and v[0] == "shr":
+        return ("byte", v[1], v[2] // 8) if v[2] % 8 == 0 else None
+    if isinstance(v, tuple) and v and v[0] in ("byte", "B", "I", "OOB", "U"):
+        return v
+    return None
 
 
-def multiple_of(delta, eq):
-    """delta == k * eq for some rational k (or delta == 0)"""
-    if not delta:
-        return True
-    if not eq:
-        return False
-    s0 = next(iter(eq))
-    if s0 not in delta:
-        return False
-    from fractions import Fraction
-    k = Fraction(delta[s0], eq[s0])
-    return all(Fraction(delta.get(s, 0)) == k * eq.get(s, 0) for s in set(delta) | set(eq))
+class ClosedSkel(skel.Skel):
+    """skeleton evaluation in a closed world: an assignment whose target is not understood, a call that is neither a
+    recognised primitive nor a project function that can be followed, ends the evaluation with Undecidable (it is never
+    skipped).  Local arrays get scratch addresses; initialiser lists and the TU's constant tables can be read."""
+
+    def __init__(self, *a, **kw):
+        skel.Skel.__init__(self, *a, **kw)
+        self.nlocal = 0
+        self.tables = {}
+        self.unknown = self._unknown
+
+    def store(self, key, v):
+        if key is None:
+            raise dtable.Undecidable("%s: assignment to a target that is not understood" % self.fn.loc)
+        skel.Skel.store(self, key, v)
+
+    def _unknown(self, e, sk):
+        if "callee" in e:
+            raise dtable.Undecidable("%s: call of %s() at line %s is not understood" % (self.fn.loc, e["callee"].get("name"), e.get("l")))
+        if e["k"] == "DeclRefExpr" and e["ref"].get("kind") == "global" and self.tu is not None:
+            q = e["ref"].get("qname")
+            ts = [t for t in self.tu.tables if t["qname"] == q]
+            if len(ts) == 1:
+                if q not in self.tables:
+                    base = TABLE_BASE + LOCAL_STRIDE * len(self.tables)
+                    self.tables[q] = base
+                    for i, v in enumerate(ts[0]["values"]):
+                        self.env[("mem", base + i)] = None if v is None else int(v)
+                return self.tables[q]
+        if e["k"] in ("LambdaExpr", "CXXThrowExpr", "CXXNewExpr", "CXXDeleteExpr"):
+            raise dtable.Undecidable("%s: %s at line %s is not understood" % (self.fn.loc, e["k"], e.get("l")))
+        return None
+
+    def stmt(self, s):
+        if s is not None and s["k"] == "DeclStmt":
+            rest = []
+            for v in kids(s):
+                if v["k"] == "VarDecl" and (v.get("ty") or "").rstrip().endswith("]"):
+                    base = LOCAL_BASE + LOCAL_STRIDE * self.nlocal
+                    self.nlocal += 1
+                    self.env[v["did"]] = base
+                    init = strip_casts(kids(v)[0]) if kids(v) else None
+                    if init is not None and init["k"] == "InitListExpr":
+                        for i, x in enumerate(kids(init)):
+                            self.env[("mem", base + i)] = self.ev(x)
+                    elif init is not None:
+                        raise dtable.Undecidable("%s: initialiser of the array %s is not understood" % (self.fn.loc, v.get("name")))
+                else:
+                    rest.append(v)
+            if len(rest) == len(kids(s)):
+                return skel.Skel.stmt(self, s)
+            if rest:
+                return skel.Skel.stmt(self, dict(s, ch=rest))
+            return None
+        return skel.Skel.stmt(self, s)
 
 
-IN_BASE, STATE_BASE, OUT_BASE = 100000, 50000, 200000
+def memory_event(model, e, sk, bytewise=True):
+    """the library primitives that move memory (copy / copy_n / memcpy / memmove / fill / fill_n / memset), `&a[i]`, and
+    min / max that the project defines itself (followed, not trusted by name).  NotImplemented: not one of these."""
+    if e["k"] == "UnaryOperator" and e.get("op") == "&":
+        key = sk.lvalue(kids(e)[0])
+        if isinstance(key, tuple) and key[0] == "mem" and isinstance(key[1], int):
+            return key[1]
+        if key is None:
+            raise dtable.Undecidable("%s: address-of at line %s is not understood" % (sk.fn.loc, e.get("l")))
+        return ("ptr", key)
+    if e["k"] == "InitListExpr":
+        # a constant array written in place (e.g. a new local table the normaliser has substituted at its use)
+        cache = sk.__dict__.setdefault("initlists", {})
+        if id(e) not in cache:
+            base = LOCAL_BASE + LOCAL_STRIDE * sk.nlocal
+            sk.nlocal += 1
+            for i, x in enumerate(kids(e)):
+                sk.env[("mem", base + i)] = sk.ev(x)
+            cache[id(e)] = base
+        return cache[id(e)]
+    if "callee" not in e:
+        return NotImplemented
+    nm = e["callee"]["name"]
+    args = [a for a in kids(e) if a is not None and a["k"] != "DefaultArg"]
+    if nm in ("min", "max") and len(args) == 2 and sk.tu is not None:
+        callee = sk.tu.by_did.get(e["callee"].get("did"))
+        if callee is not None and callee.body is not None:
+            return sk.inline(e, args)
+        return NotImplemented
+    if nm in ("copy", "copy_n", "memcpy", "memmove", "fill", "fill_n", "memset") and len(args) == 3 and e["k"] == "CallExpr" \
+            and sk.tu.by_did.get(e["callee"].get("did")) is None:
+        if not bytewise and nm in ("memcpy", "memmove", "memset"):
+            raise dtable.Undecidable("%s: %s() on an array of words is not modelled" % (sk.fn.loc, nm))
+        v = [sk.ev(a) for a in args]
+        src = val = None
+        if nm == "copy":
+            first, last, dst = v
+            n, src = (last - first if isinstance(first, int) and isinstance(last, int) else None), first
+        elif nm == "copy_n":
+            src, n, dst = v
+        elif nm in ("memcpy", "memmove"):
+            dst, src, n = v
+        elif nm == "fill":
+            dst, last, val = v
+            n = last - dst if isinstance(dst, int) and isinstance(last, int) else None
+        elif nm == "fill_n":
+            dst, n, val = v
+        else:
+            dst, val, n = v
+        ints = lambda x: isinstance(x, int) and not isinstance(x, bool)
+        if not ints(n) or not ints(dst) or n < 0 or n > 4 * model.B or (src is None and val is None) or (src is not None and not ints(src)):
+            raise dtable.Undecidable("%s: %s() at line %s with arguments that are not understood" % (sk.fn.loc, nm, e.get("l")))
+        vals = [sk.load(("mem", src + i)) for i in range(n)] if src is not None else [val] * n
+        for i in range(n):
+            sk.store(("mem", dst + i), vals[i])
+        return dst + n if nm in ("copy", "copy_n", "fill_n") else (dst if nm != "fill" else None)
+    return NotImplemented
 
 
 class DigestModel:
     """process()/finalize() of one digest evaluated on a model: sizes and positions are small concrete integers, the
-    bytes are labels (("B", i): byte i of the buffer before the call, ("I", i): byte i of the input, ("S", w): state word w).
-    The compress calls are observed, not executed: each consumes the block it is given."""
+    bytes are labels (("B", i): byte i of the buffer before the call, ("I", i): byte i of the input, ("S", w, g): state word w
+    after g compressions).  The compress calls are observed, not executed: each consumes the block it is given.  Everything
+    else is executed statement by statement (store helpers, copy loops, private helpers); what cannot be executed ends the
+    evaluation with Undecidable."""
 
     def __init__(self, tu, fn, info, curlen0, size0=0, length0=0):
         self.tu, self.fn, self.info = tu, fn, info
         self.B = info["block"]
         self.size0 = size0
-        self.blocks = []         # [(kind, [labels])]
-        self.events = []
+        self.blocks = []         # [(kind, [labels], address)]
         self.sk = None
         self.curlen0, self.length0 = curlen0, length0
 
@@ -101,73 +192,36 @@ class DigestModel:
         if IN_BASE <= a < IN_BASE + self.size0:
             return ("I", a - IN_BASE)
         if STATE_BASE <= a < STATE_BASE + self.info["words"]:
-            return ("S", a - STATE_BASE)
+            return ("S", a - STATE_BASE, len(self.blocks))
+        if LOCAL_BASE <= a < TABLE_BASE:
+            return ("U", a)
         return ("OOB", a)
 
     def event(self, e, sk):
-        if "callee" not in e:
-            return NotImplemented
-        nm = e["callee"]["name"]
-        args = [a for a in kids(e) if a is not None and a["k"] != "DefaultArg"]
-        if nm.endswith("_compress") and len(args) == 2:
-            p = sk.ev(args[1])
-            if not isinstance(p, int):
-                raise dtable.Undecidable("%s: block handed to %s not understood" % (self.fn.loc, nm))
-            self.blocks.append(("direct" if p >= IN_BASE else "buffer", [sk.load(("mem", p + i)) for i in range(self.B)], p))
-            self.events.append(("compress", len(self.blocks)))
-            return None
-        if nm in ("copy", "copy_n", "memcpy", "fill", "fill_n", "memset") and len(args) == 3:
-            v = [sk.ev(a) for a in args]
-            if nm == "copy":
-                first, last, dst = v
-                n, src, val = (last - first if isinstance(first, int) and isinstance(last, int) else None), first, None
-            elif nm == "copy_n":
-                src, n, dst = v
-                val = None
-            elif nm == "memcpy":
-                dst, src, n = v
-                val = None
-            elif nm == "fill":
-                dst, last, val = v
-                n, src = (last - dst if isinstance(dst, int) and isinstance(last, int) else None), None
-            elif nm == "fill_n":
-                dst, n, val = v
-                src = None
-            else:
-                dst, val, n = v
-                src = None
-            if not isinstance(n, int) or not isinstance(dst, int) or n < 0 or n > 4 * self.B or (src is None and val is None):
-                raise dtable.Undecidable("%s: %s() with arguments that are not understood" % (self.fn.loc, nm))
-            vals = [sk.load(("mem", src + i)) for i in range(n)] if src is not None else [val] * n
-            for i in range(n):
-                sk.store(("mem", dst + i), vals[i])
-            return dst + n
-        if nm.startswith("store") and len(args) == 2 and self.tu.by_did.get(e["callee"]["did"]) is not None:
-            so = store_order(self.tu, e)
-            val, dst = sk.ev(args[0]), sk.ev(args[1])
-            if so is None or so[0] == "mixed" or not isinstance(dst, int):
-                raise dtable.Undecidable("%s: %s() not understood" % (self.fn.loc, nm))
-            order, n = so
-            for j in range(n):
-                k = (n - 1 - j) if order == "big" else j          # significance of the byte written at dst + j
-                if isinstance(val, int):
-                    byte = (val >> (8 * k)) & 255
-                else:
-                    byte = ("byte", val, k)
-                sk.store(("mem", dst + j), byte)
-            self.events.append(("store", dst, n))
-            return None
-        return NotImplemented
+        if "callee" in e:
+            nm = e["callee"]["name"]
+            args = [a for a in kids(e) if a is not None and a["k"] != "DefaultArg"]
+            if nm.endswith("_compress") and len(args) == 2 and e["k"] == "CallExpr":
+                st, p = sk.ev(args[0]), sk.ev(args[1])
+                if not isinstance(p, int) or isinstance(p, bool) or st != STATE_BASE:
+                    raise dtable.Undecidable("%s: state / block handed to %s at line %s not understood" % (self.fn.loc, nm, e.get("l")))
+                self.blocks.append(("direct" if IN_BASE <= p < LOCAL_BASE else "buffer", [sk.load(("mem", p + i)) for i in range(self.B)], p))
+                return None
+        return memory_event(self, e, sk)
 
     def run(self, params):
         env = {("field", "curlen_"): self.curlen0, ("field", "length_"): self.length0, ("field", "buf_"): 0, ("field", "state_"): STATE_BASE}
         env.update(params)
-        self.sk = skel.Skel(self.fn, env, None, self.event, mem_default=self.mem_default, max_iter=8 * self.B)
+        self.sk = ClosedSkel(self.fn, env, None, self.event, mem_default=self.mem_default, max_iter=8 * self.B)
+        self.sk.alg = word_alg
         self.diverged = None
         try:
             self.sk.run(kids(self.fn.body))
         except skel.Return:
             pass
+        except (TypeError, KeyError, IndexError) as t:
+            # arithmetic on something that is not a number of the model (a pointer to a member, a label ...)
+            raise dtable.Undecidable("%s: a value of the evaluation is used in a way that is not understood (%s)" % (self.fn.loc, t))
         except skel.Diverges as d:
             self.diverged = d.loop
         except skel.TooLong as d:
@@ -175,45 +229,76 @@ class DigestModel:
             self.diverged = d.loop
         return self.sk
 
+    def stray_writes(self, allowed):
+        """addresses written that are neither in one of the allowed ranges nor a local array of the function"""
+        return sorted(key[1] for key in self.sk.env if isinstance(key, tuple) and key[0] == "mem" and isinstance(key[1], int)
+                      and not any(lo <= key[1] < hi for lo, hi in allowed) and not (LOCAL_BASE <= key[1] < TABLE_BASE + 64 * LOCAL_STRIDE))
+
+
+def understood(where, what, v):
+    """a value the verdict rests on must be a concrete integer of the model"""
+    if not isinstance(v, int) or isinstance(v, bool):
+        raise dtable.Undecidable("%s: %s is not a value the evaluation understands (%r)" % (where, what, v))
+    return v
+
 
 def check_process(ck, tu, name, info):
     """PROCESS-STREAM / PROCESS-CONSERVE: for buffer fills {0, 1, B/2, B-1} and input sizes {0, 1, B-1, B, B+1, 2B, 2B+5, 3B-1}
     the blocks handed to the compression function are, in order, the bytes buffered before followed by the input, cut
     into blocks; what is left is in buf_[0, curlen_); length_ grows by 8 * block per compressed block; nothing is written
-    outside buf_."""
-    fn = [f for f in tu.find(qname="tlx::%s::process" % name) if len(f.params) == 2][0]
+    outside buf_.  Every verdict is a concrete (fill, size) case of the evaluation; a value the evaluation does not
+    understand is never counted as a wrong value."""
+    fns = [f for f in tu.find(qname="tlx::%s::process" % name) if len(f.params) == 2 and f.body is not None]
+    ck.require(len(fns) == 1, "%s: process(data, size) not found" % name)
+    fn = fns[0]
     B = info["block"]
     bad = None
     ncases = 0
+    def case(curlen0, size0):
+        m = DigestModel(tu, fn, info, curlen0, size0, length0=8 * B * 7)
+        sk = m.run({fn.params[0]["did"]: IN_BASE, fn.params[1]["did"]: size0})
+        want = [("B", i) for i in range(curlen0)] + [("I", i) for i in range(size0)]
+        k = len(want) // B
+        where = "buffer fill %d, input of %d bytes" % (curlen0, size0)
+        uwhere = "%s (%s)" % (fn.loc, where)
+        if m.diverged is not None:
+            return ("PROCESS-STREAM", "for %s the chunk loop at line %s does not end (same state again, or more than 8 x block rounds): process() does not return"
+                   % (where, m.diverged.get("l")))
+        got = [as_byte(x) for _, blk, _ in m.blocks for x in blk]
+        cur = sk.env.get(("field", "curlen_"))
+        ln = sk.env.get(("field", "length_"))
+        oob = m.stray_writes([(0, B)])
+        if oob:
+            return ("PROCESS-STREAM", "write outside buf_ (offset %d) for %s" % (min(oob), where))
+        elif got != want[:k * B]:
+            i = next((j for j in range(min(len(got), k * B)) if got[j] != want[j]), min(len(got), k * B))
+            if i < len(got) and got[i] is None:
+                raise dtable.Undecidable("%s: byte %d handed to the compression function is not understood" % (uwhere, i))
+            return ("PROCESS-STREAM", "for %s the compression function receives %d blocks; byte %d of that stream is %s, it must be %s "
+                   "(buffered bytes first, then the input, in order, whole blocks only)"
+                   % (where, len(m.blocks), i, lab(got[i]) if i < len(got) else "missing", lab(want[i]) if i < k * B else "nothing"))
+        elif understood(uwhere, "curlen_ after the call", cur) != len(want) - k * B:
+            return ("PROCESS-STREAM", "for %s curlen_ is %s afterwards, %d bytes remain unhashed" % (where, cur, len(want) - k * B))
+        elif [as_byte(sk.load(("mem", i))) for i in range(len(want) - k * B)] != want[k * B:]:
+            rest = [as_byte(sk.load(("mem", i))) for i in range(len(want) - k * B)]
+            if any(x is None for x in rest):
+                raise dtable.Undecidable("%s: a byte left in buf_ is not understood" % uwhere)
+            return ("PROCESS-STREAM", "for %s the bytes left in buf_ are not the unhashed tail of the input" % where)
+        elif understood(uwhere, "length_ after the call", ln) != 8 * B * 7 + 8 * B * k:
+            return ("PROCESS-CONSERVE", "for %s length_ grows by %s bits, %d blocks of %d bytes were hashed: the length hashed into the padding is wrong"
+                   % (where, ln - 8 * B * 7, k, B))
+        return None
+    undecided = None
     for curlen0 in (0, 1, B // 2, B - 1):
         for size0 in (0, 1, B - 1, B, B + 1, 2 * B, 2 * B + 5, 3 * B - 1):
-            m = DigestModel(tu, fn, info, curlen0, size0, length0=8 * B * 7)
-            sk = m.run({fn.params[0]["did"]: IN_BASE, fn.params[1]["did"]: size0})
-            ncases += 1
-            want = [("B", i) for i in range(curlen0)] + [("I", i) for i in range(size0)]
-            k = len(want) // B
-            got = [x for _, blk, _ in m.blocks for x in blk]
-            cur = sk.env.get(("field", "curlen_"))
-            ln = sk.env.get(("field", "length_"))
-            oob = [key[1] for key in sk.env if isinstance(key, tuple) and key[0] == "mem" and not (0 <= key[1] < B)]
-            where = "buffer fill %d, input of %d bytes" % (curlen0, size0)
-            if m.diverged is not None and bad is None:
-                bad = ("PROCESS-STREAM", "for %s the chunk loop at line %s does not end (same state again, or more than 8 x block rounds): process() does not return"
-                       % (where, m.diverged.get("l")))
-            elif oob and bad is None:
-                bad = ("PROCESS-STREAM", "write outside buf_ (offset %d) for %s" % (min(oob), where))
-            elif got != want[:k * B] and bad is None:
-                i = next((j for j in range(min(len(got), k * B)) if got[j] != want[j]), min(len(got), k * B))
-                bad = ("PROCESS-STREAM", "for %s the compression function receives %d blocks; byte %d of that stream is %s, it must be %s "
-                       "(buffered bytes first, then the input, in order, whole blocks only)"
-                       % (where, len(m.blocks), i, lab(got[i]) if i < len(got) else "missing", lab(want[i]) if i < k * B else "nothing"))
-            elif cur != len(want) - k * B and bad is None:
-                bad = ("PROCESS-STREAM", "for %s curlen_ is %s afterwards, %d bytes remain unhashed" % (where, cur, len(want) - k * B))
-            elif [sk.load(("mem", i)) for i in range(len(want) - k * B)] != want[k * B:] and bad is None:
-                bad = ("PROCESS-STREAM", "for %s the bytes left in buf_ are not the unhashed tail of the input" % where)
-            elif ln != 8 * B * 7 + 8 * B * k and bad is None:
-                bad = ("PROCESS-CONSERVE", "for %s length_ grows by %s bits, %d blocks of %d bytes were hashed: the length hashed into the padding is wrong"
-                       % (where, (ln - 8 * B * 7) if isinstance(ln, int) else "?", k, B))
+            if bad is None:
+                ncases += 1
+                try:
+                    bad = case(curlen0, size0)
+                except dtable.Undecidable as u:
+                    undecided = undecided or u
+    if undecided is not None and not bad:
+        raise undecided         # (a defect shown by a case that is understood completely stands on its own)
     if bad:
         ck.violation(bad[0], fn.qname, name + ":process", bad[1], fn.loc)
     else:
@@ -223,56 +308,25 @@ def check_process(ck, tu, name, info):
 
 
 def lab(x):
-    if isinstance(x, tuple):
-        return {"B": "buffered byte %s", "I": "input byte %s", "OOB": "memory outside buffer and input (%s)"}.get(x[0], str(x[0]) + " %s") % (x[1],)
+    if isinstance(x, tuple) and x and x[0] == "byte":
+        return "byte %s of state word %s" % (x[2], x[1][1] if isinstance(x[1], tuple) and len(x[1]) > 1 else x[1])
+    if isinstance(x, tuple) and len(x) >= 2:
+        return {"B": "buffered byte %s", "I": "input byte %s", "OOB": "memory outside buffer and input (%s)", "U": "an uninitialised local byte (%s)",
+                "S": "state word %s"}.get(x[0], str(x[0]) + " %s") % (x[1],)
     return repr(x)
 
 
-def fmt_lin(l):
-    if not l:
-        return "0"
-    parts = []
-    for s, v in sorted(l.items(), key=lambda kv: str(kv[0])):
-        nm = "1" if s == 1 else s[-1] if s[0] in ("v",) else s[1] if s[0] == "f" else {"B": "block_size", "n": "n"}.get(s[0], str(s))
-        parts.append(("%+d" % v) if s == 1 else "%+d*%s" % (v, nm))
-    return " ".join(parts)
-
-
-def store_order(tu, call):
-    """('big'|'little', width) of a storeNN helper by evaluating its shift schedule"""
-    fn = tu.by_did.get(call["callee"]["did"])
-    if fn is None:
-        return None
-    loop = [x for x in fn.nodes() if x["k"] == "ForStmt"]
-    if not loop:
-        return None
-    init, cond, inc, body = match.loop_parts(loop[0])
-    var = [y["did"] for y in ir.walk(init) if y["k"] == "VarDecl"][0]
-    n = const_int(match.binop(cond, ("!=", "<"))[2])
-    shifts = []
-    for i in range(n):
-        for y in ir.walk(body):
-            b = match.binop(y, (">>",))
-            if b and strip_casts(y)["k"] == "BinaryOperator":
-                from rules.c13 import eval_arith
-                shifts.append(eval_arith(b[2], {var: i}))
-                break
-    if shifts == [8 * (n - 1 - i) for i in range(n)]:
-        return "big", n
-    if shifts == [8 * i for i in range(n)]:
-        return "little", n
-    return "mixed", n
-
-
 def check_finalize(ck, tu, name, info):
-    """FINAL-THRESHOLDS: finalize() evaluated for every buffer fill 0 .. B-1: the blocks compressed are exactly
-    buffered bytes ++ 0x80 ++ zeros ++ bit length (L bytes, the digest's byte order), one block if it fits and two otherwise;
-    the digest is the state words in the digest's byte order, written after the last compression."""
+    """FINAL-THRESHOLDS: finalize() evaluated for every buffer fill 0 .. B-1 (store helpers, fill loops and private
+    helpers are executed, whatever their form): the blocks compressed are exactly buffered bytes ++ 0x80 ++ zeros ++ bit
+    length (L bytes, the digest's byte order), one block if it fits and two otherwise; the digest is the state words after
+    the last compression, in the digest's byte order."""
     fn = tu.one(qname="tlx::%s::finalize" % name)
+    ck.require(len(fn.params) == 1 and fn.body is not None, "%s: finalize(digest) not found" % name)
     B, L = info["block"], info["L"]
     bad = None
     LEN0 = 8 * B * 5
-    for curlen0 in range(B):
+    def case(curlen0):
         m = DigestModel(tu, fn, info, curlen0, 0, length0=LEN0)
         sk = m.run({fn.params[0]["did"]: OUT_BASE})
         bits = LEN0 + 8 * curlen0
@@ -282,35 +336,45 @@ def check_finalize(ck, tu, name, info):
         nblk = 1 if curlen0 + 1 + L <= B else 2
         want = [("B", i) for i in range(curlen0)] + [0x80]
         want += [0] * (nblk * B - L - len(want)) + lenbytes
-        got = [x for _, blk, _ in m.blocks for x in blk]
         where = "%d buffered bytes" % curlen0
+        uwhere = "%s (%s)" % (fn.loc, where)
         if m.diverged is not None:
-            bad = bad or ("hang", "with %s a loop of finalize() does not end (same state again, or more than 8 x block rounds)" % where)
-            continue
-        oob = [key[1] for key in sk.env if isinstance(key, tuple) and key[0] == "mem" and not (0 <= key[1] < B or OUT_BASE <= key[1] < OUT_BASE + info["words"] * info["wbytes"])]
+            return ("hang", "with %s a loop of finalize() does not end (same state again, or more than 8 x block rounds)" % where)
+        got = [as_byte(x) for _, blk, _ in m.blocks for x in blk]
+        oob = m.stray_writes([(0, B), (OUT_BASE, OUT_BASE + info["words"] * info["wbytes"])])
         if oob:
-            bad = bad or ("overflow", "with %s finalize writes outside buf_ / the digest (offset %d)" % (where, min(oob)))
-            continue
+            return ("overflow", "with %s finalize writes outside buf_ / the digest (offset %d)" % (where, min(oob)))
         if len(m.blocks) != nblk:
-            bad = bad or ("threshold", "with %s finalize compresses %d block(s); the 0x80 byte and the %d-byte length field need %d"
+            return ("threshold", "with %s finalize compresses %d block(s); the 0x80 byte and the %d-byte length field need %d"
                           % (where, len(m.blocks), L, nblk))
-            continue
         if got != want:
             i = next(j for j in range(len(want)) if got[j] != want[j])
+            if got[i] is None:
+                raise dtable.Undecidable("%s: byte %d of the final block(s) is not understood" % (uwhere, i))
             what = "padding" if i < nblk * B - L else "length field"
-            bad = bad or (what.replace(" ", "-"), "with %s byte %d of the final block(s) is %s, the %s needs %s (length %d bits, %s-endian in the last %d bytes)"
+            return (what.replace(" ", "-"), "with %s byte %d of the final block(s) is %s, the %s needs %s (length %d bits, %s-endian in the last %d bytes)"
                           % (where, i, lab(got[i]), what, lab(want[i]), bits, info["endian"], L))
-            continue
-        out = [sk.load(("mem", OUT_BASE + i)) for i in range(info["words"] * info["wbytes"])]
+        out = [as_byte(sk.load(("mem", OUT_BASE + i))) for i in range(info["words"] * info["wbytes"])]
         wb = info["wbytes"]
-        wout = [("byte", ("S", w), (wb - 1 - j) if info["endian"] == "big" else j) for w in range(info["words"]) for j in range(wb)]
+        wout = [("byte", ("S", w, nblk), (wb - 1 - j) if info["endian"] == "big" else j) for w in range(info["words"]) for j in range(wb)]
         if out != wout:
             i = next(j for j in range(len(wout)) if out[j] != wout[j])
-            bad = bad or ("output", "digest byte %d is %s; %s writes %d state words of %d bytes, %s-endian" % (i, lab(out[i]), name, info["words"], wb, info["endian"]))
-            continue
-        last_compress = max(i for i, ev in enumerate(m.events) if ev[0] == "compress")
-        if any(ev[0] == "store" and ev[1] >= OUT_BASE and i < last_compress for i, ev in enumerate(m.events)):
-            bad = bad or ("output-early", "the digest is written before the last block was compressed")
+            if out[i] is None:
+                raise dtable.Undecidable("%s: digest byte %d is not understood" % (uwhere, i))
+            if isinstance(out[i], tuple) and out[i][0] == "byte" and out[i][1][:2] == wout[i][1][:2] and out[i][2] == wout[i][2]:
+                return ("output-early", "digest byte %d is taken from the state after %d of %d compressions: the digest is written before the last block was compressed"
+                              % (i, out[i][1][2], nblk))
+            else:
+                return ("output", "digest byte %d is %s; %s writes %d state words of %d bytes, %s-endian" % (i, lab(out[i]), name, info["words"], wb, info["endian"]))
+        return None
+    undecided = None
+    for curlen0 in range(B):
+        try:
+            bad = bad or case(curlen0)
+        except dtable.Undecidable as u:
+            undecided = undecided or u
+    if undecided is not None and not bad:
+        raise undecided         # (a defect shown by a case that is understood completely stands on its own)
     if bad:
         ck.violation("FINAL-THRESHOLDS", fn.qname, name + ":" + bad[0], bad[1], fn.loc)
     else:
@@ -318,25 +382,376 @@ def check_finalize(ck, tu, name, info):
               "digest == %d state words of %d bytes, %s-endian, after the last compression" % (B, L, info["endian"], B - L - 1, info["words"], info["wbytes"], info["endian"]))
 
 
-def check_frontends(ck, tu, name, info):
-    pfx = info["pfx"]
-    for meth, want in (("digest_hex", "hexdump_lc"), ("digest_hex_uc", "hexdump")):
-        fn = tu.one(qname="tlx::%s::%s" % (name, meth))
-        calls = [x["callee"]["name"] for x in fn.nodes() if "callee" in x and x["callee"]["name"].startswith("hexdump")]
-        fin = [x for x in fn.nodes() if "callee" in x and x["callee"]["name"] == "finalize"]
-        if calls == [want] and len(fin) == 1:
-            ck.ok("HEX-FRONTENDS", "%s::%s" % (name, meth), "finalize then " + want, nontrivial=False)
+HEX_CASE = {"hexdump": "uc", "hexdump_type": "uc", "hexdump_lc": "lc", "hexdump_lc_type": "lc"}
+MAXC = 3
+
+
+def _plus(a, b):
+    return {min(x + y, MAXC) for x in a for y in b}
+
+
+class CallCounter:
+    """how often a call of one kind happens on the paths through a function: the set of possible counts (capped at 3).
+    Project functions with a body are followed; branches contribute the union of their arms (a path may be infeasible,
+    so a verdict is only drawn from what holds on EVERY path); a loop around a counted call is not understood."""
+
+    def __init__(self, tu, is_target, leaf=lambda c: False):
+        self.tu, self.is_target, self.leaf = tu, is_target, leaf
+        self.stack = []
+        self.consts = {}        # parameters of a followed helper that were given compile-time constants
+        self.opaque = []        # calls that could neither be classified nor followed
+        self.foreign = False    # a counted / followed member call is made on an object other than *this
+
+    def known(self, e):
+        """truth value of a branch condition that only depends on constant arguments of the followed helper, else None"""
+        e = strip_casts(e)
+        while e is not None and e["k"] == "ParenExpr" and kids(e):
+            e = strip_casts(kids(e)[0])
+        if e is None:
+            return None
+        c = const_int(e)
+        if c is not None:
+            return c
+        if e["k"] == "DeclRefExpr":
+            return self.consts.get(e["ref"]["id"])
+        if e["k"] == "UnaryOperator" and e.get("op") == "!":
+            v = self.known(kids(e)[0])
+            return None if v is None else int(not v)
+        b = match.binop(e, ("==", "!="))
+        if b and e["k"] == "BinaryOperator":
+            l, r = self.known(b[1]), self.known(b[2])
+            if l is not None and r is not None:
+                return int((l == r) == (b[0] == "=="))
+        return None
+
+    def enter(self, e, callee):
+        """binds the parameters of a followed helper that get compile-time constants (and are never written); -> what to restore"""
+        args = [a for a in kids(e) if a is not None]
+        if e.get("member_call"):
+            args = args[1:]
+        saved = dict(self.consts)
+        written = {ref_of(kids(x)[0]) for x in callee.nodes() if x["k"] in ("BinaryOperator", "CompoundAssignOperator", "UnaryOperator")
+                   and (x.get("op") in ("++", "--") or x.get("op", "").endswith("=") and x.get("op") not in ("==", "!=", "<=", ">=")) and kids(x)}
+        if len(args) == len(callee.params):
+            for p_, a in zip(callee.params, args):
+                v = self.known(a)
+                if v is not None and p_["did"] not in written and "&" not in (p_.get("ty") or ""):
+                    self.consts[p_["did"]] = v
+        return saved
+
+    def returned_cases(self, fn, depth=0):
+        """the kinds of value the feasible return statements hand out: 'uc' / 'lc' (a hexdump call of that case, directly
+        or through a followed helper), '?' anything else"""
+        out = set()
+
+        def visit(s):
+            """-> True if every path through s ends in a return"""
+            if s is None or s["k"] == "LambdaExpr":
+                return False
+            if s["k"] == "CompoundStmt":
+                for c in kids(s):
+                    if visit(c):
+                        return True
+                return False
+            if s["k"] == "IfStmt":
+                v = self.known(kids(s)[0])
+                els = kids(s)[2] if len(kids(s)) > 2 else None
+                if v is not None:
+                    return visit(kids(s)[1] if v else els)
+                a, b = visit(kids(s)[1]), visit(els)
+                return a and b
+            if s["k"] == "ReturnStmt":
+                e = strip_tmp(kids(s)[0]) if kids(s) else None
+                if e is not None and e["k"] == "ConditionalOperator" and self.known(kids(e)[0]) is not None:
+                    e = strip_tmp(kids(e)[1] if self.known(kids(e)[0]) else kids(e)[2])
+                if e is not None and "callee" in e:
+                    c = e["callee"]
+                    if c.get("name") in HEX_CASE and not c.get("record"):
+                        out.add(HEX_CASE[c["name"]])
+                        return True
+                    callee = self.tu.by_did.get(c.get("did"))
+                    if callee is not None and callee.body is not None and depth < 4 and not (c.get("name") or "").startswith("hexdump"):
+                        saved = self.enter(e, callee)
+                        try:
+                            out.update(self.returned_cases(callee, depth + 1))
+                        finally:
+                            self.consts = saved
+                        return True
+                out.add("?")
+                return True
+            for c in kids(s):
+                visit(c)
+            return False
+        visit(fn.body)
+        return out
+
+    def fn_counts(self, fn):
+        if fn.did in self.stack or len(self.stack) > 6:
+            raise dtable.Undecidable("%s: recursion while counting calls" % fn.loc)
+        self.stack.append(fn.did)
+        try:
+            tot = {0}
+            for i in fn.inits:
+                if i.get("e"):
+                    tot = _plus(tot, self.expr(i["e"]))
+            ft, rt = self.stmt(fn.body)
+            return _plus(tot, ft | rt)
+        finally:
+            self.stack.pop()
+
+    def expr(self, e):
+        if e is None:
+            return {0}
+        k = e["k"]
+        if k in ("VarDecl",):
+            tot = {0}
+            for c in kids(e):
+                tot = _plus(tot, self.expr(c))
+            return tot
+        if k == "ConditionalOperator" and len(kids(e)) == 3:
+            v = self.known(kids(e)[0])
+            if v is not None:
+                return _plus(self.expr(kids(e)[0]), self.expr(kids(e)[1] if v else kids(e)[2]))
+            return _plus(self.expr(kids(e)[0]), self.expr(kids(e)[1]) | self.expr(kids(e)[2]))
+        if k == "BinaryOperator" and e.get("op") in ("&&", "||"):
+            return _plus(self.expr(kids(e)[0]), {0} | self.expr(kids(e)[1]))
+        if k == "LambdaExpr":
+            if any(self.is_target(x["callee"]) for x in ir.walk(e) if "callee" in x):
+                raise dtable.Undecidable("a counted call inside a lambda at line %s" % e.get("l"))
+            return {0}
+        tot = {0}
+        for c in kids(e):
+            tot = _plus(tot, self.expr(c))
+        if "callee" in e:
+            c = e["callee"]
+            if e.get("member_call") and (self.is_target(c) or self.tu.by_did.get(c.get("did")) is not None) and \
+                    not (kids(e) and strip_casts(kids(e)[0]) is not None and strip_casts(kids(e)[0])["k"] == "This"):
+                self.foreign = True
+            if self.is_target(c):
+                tot = _plus(tot, {1})
+            elif not self.leaf(c):
+                callee = self.tu.by_did.get(c.get("did"))
+                if callee is not None and callee.body is not None:
+                    saved = self.enter(e, callee)
+                    try:
+                        tot = _plus(tot, self.fn_counts(callee))
+                    finally:
+                        self.consts = saved
+                elif not (c.get("qname") or "").startswith("std::") and not (c.get("record") or "").startswith("std::"):
+                    self.opaque.append(c.get("qname") or c.get("name"))
+        return tot
+
+    def stmt(self, s):
+        """(counts at fall-through, counts at a return)"""
+        if s is None:
+            return {0}, set()
+        k = s["k"]
+        if k == "CompoundStmt":
+            cur, rets = {0}, set()
+            for x in kids(s):
+                ft, rt = self.stmt(x)
+                rets |= _plus(cur, rt) if rt else set()
+                cur = _plus(cur, ft) if ft else set()
+                if not cur:
+                    break
+            return cur, rets
+        if k == "IfStmt":
+            c = self.expr(kids(s)[0])
+            for key in ("init", "condvar"):
+                if isinstance(s.get(key), dict):
+                    c = _plus(c, self.expr(s[key]))
+            v = self.known(kids(s)[0])
+            f1, r1 = self.stmt(kids(s)[1]) if v is None or v else (set(), set())
+            f2, r2 = (self.stmt(kids(s)[2]) if len(kids(s)) > 2 and kids(s)[2] is not None else ({0}, set())) if v is None or not v else (set(), set())
+            return (_plus(c, f1 | f2) if (f1 | f2) else set()), (_plus(c, r1 | r2) if (r1 | r2) else set())
+        if k == "ReturnStmt":
+            return set(), (self.expr(kids(s)[0]) if kids(s) else {0})
+        if k == "DeclStmt":
+            tot = {0}
+            for v in kids(s):
+                tot = _plus(tot, self.expr(v))
+            return tot, set()
+        if k in ("ForStmt", "WhileStmt", "DoStmt", "CXXForRangeStmt", "SwitchStmt", "CXXTryStmt", "LabelStmt", "GotoStmt", "AttributedStmt"):
+            tot = {0}
+            for x in kids(s):
+                if x is None:
+                    continue
+                f, r = self.stmt(x)
+                tot = _plus(tot, f | r | {0})
+            if tot != {0}:
+                raise dtable.Undecidable("a counted call inside a %s at line %s" % (k, s.get("l")))
+            has_ret = any(x["k"] == "ReturnStmt" for x in ir.walk(s))
+            return {0}, ({0} if has_ret else set())
+        if k in ("BreakStmt", "ContinueStmt", "NullStmt"):
+            return {0}, set()
+        return self.expr(s), set()
+
+
+def strip_tmp(e):
+    """looks through the temporaries, cleanups, casts and copy/move constructions around a returned / passed value"""
+    while e is not None:
+        e = strip_casts(e)
+        if e is not None and e["k"] in ("ExprWithCleanups", "MaterializeTemporaryExpr", "CXXBindTemporaryExpr", "ParenExpr", "ConstantExpr") and kids(e):
+            e = kids(e)[0]
+        elif e is not None and e["k"] == "CXXConstructExpr" and len(kids(e)) == 1 and ir._bare(kids(e)[0].get("ty")) == ir._bare(e.get("ty")):
+            e = kids(e)[0]
         else:
-            ck.violation("HEX-FRONTENDS", fn.qname, "%s:%s" % (name, meth), "%s must finalize once and print with %s (uses %s)" % (meth, want, calls), fn.loc)
+            break
+    return e
+
+
+def strip_passed(e):
+    """strip_tmp, and through the converting constructions / conversion operators an argument goes through"""
+    while True:
+        e = strip_tmp(e)
+        if e is not None and e["k"] in ("CXXConstructExpr", "CXXTemporaryObjectExpr", "CXXFunctionalCastExpr") and len(kids(e)) == 1:
+            e = kids(e)[0]
+        elif e is not None and e["k"] == "CXXMemberCallExpr" and len(kids(e)) == 1 and (e["callee"].get("name") or "").startswith("operator "):
+            e = kids(e)[0]
+        else:
+            return e
+
+
+def check_frontends(ck, tu, name, info):
+    """HEX-FRONTENDS.  digest_hex / digest_hex_uc: on every path exactly one finalize and one hexdump of the right case.
+    A violation needs a path-independent fact (every path prints with the other case / finalizes twice / never finalizes
+    although every call was followed); anything else that is not the expected picture is `cannot decide`."""
+    pfx = info["pfx"]
+    rec = "tlx::" + name
+    for meth, want in (("digest_hex", "lc"), ("digest_hex_uc", "uc")):
+        fn = tu.one(qname="tlx::%s::%s" % (name, meth))
+        ck.require(fn.body is not None, "%s: no body" % fn.qname)
+        is_hex = lambda c: (c.get("name") or "").startswith("hexdump")
+        fin_c = CallCounter(tu, lambda c: c.get("name") == "finalize" and c.get("record") == rec, leaf=is_hex)
+        fin = fin_c.fn_counts(fn)
+        good = CallCounter(tu, lambda c: HEX_CASE.get(c.get("name")) == want and not c.get("record"), leaf=is_hex).fn_counts(fn)
+        wrong = CallCounter(tu, lambda c: HEX_CASE.get(c.get("name")) not in (None, want) and not c.get("record"), leaf=is_hex).fn_counts(fn)
+        other = CallCounter(tu, lambda c: is_hex(c) and c.get("name") not in HEX_CASE, leaf=is_hex).fn_counts(fn)
+        wname = "hexdump_lc" if want == "lc" else "hexdump"
+        # the wrong-case print is what the caller gets: every return statement hands out such a call directly
+        wrong_returned = fin_c.returned_cases(fn) == {"uc" if want == "lc" else "lc"}
+        if fin_c.foreign:
+            raise dtable.Undecidable("%s: %s finalizes / prints an object other than *this" % (fn.loc, meth))
+        if fin == {1} and good == {1} and wrong == {0} and other == {0}:
+            ck.ok("HEX-FRONTENDS", "%s::%s" % (name, meth), "finalize then " + wname, nontrivial=False)
+        elif good == {0} and other == {0} and min(wrong) >= 1 and wrong_returned:
+            ck.violation("HEX-FRONTENDS", fn.qname, "%s:%s" % (name, meth), "%s must finalize once and print with %s (every path returns the %s-case hexdump instead)"
+                         % (meth, wname, "upper" if want == "lc" else "lower"), fn.loc)
+        elif min(fin) >= 2:
+            ck.violation("HEX-FRONTENDS", fn.qname, "%s:%s" % (name, meth), "%s must finalize once and print with %s (every path calls finalize at least twice: "
+                         "the second padding is hashed into the digest)" % (meth, wname), fn.loc)
+        elif fin == {0} and not fin_c.opaque and good | wrong != {0}:
+            ck.violation("HEX-FRONTENDS", fn.qname, "%s:%s" % (name, meth), "%s must finalize once and print with %s (no path calls finalize; every call was followed)"
+                         % (meth, wname), fn.loc)
+        else:
+            raise dtable.Undecidable("%s: %s: finalize count on the paths %s, %s count %s, other hexdump count %s - not the shape understood"
+                                     % (fn.loc, meth, sorted(fin), wname, sorted(good), sorted(wrong | other)))
+    known_meths = ("digest", "digest_hex", "digest_hex_uc")
     for free, meth in ((pfx + "_hex", "digest_hex"), (pfx + "_hex_uc", "digest_hex_uc")):
-        for fn in tu.find(qname="tlx::" + free):
-            ms = [x["callee"]["name"] for x in fn.nodes() if "callee" in x and x.get("member_call") and x["callee"]["name"].startswith("digest")]
-            ctor = [x for x in fn.nodes() if x["k"] in ("CXXTemporaryObjectExpr", "CXXConstructExpr", "CXXFunctionalCastExpr") and "callee" in x and x["callee"].get("record") == "tlx::" + name]
-            okargs = bool(ctor) and [ref_of(a) for a in kids(ctor[0])] == [p["did"] for p in fn.params]
-            if ms == [meth] and okargs:
-                ck.ok("HEX-FRONTENDS", "%s/%d" % (free, len(fn.params)), "%s(args...).%s()" % (name, meth), nontrivial=False)
+        overloads = tu.find(qname="tlx::" + free)
+        for fn in overloads:
+            if fn.body is None:
+                continue
+            where = "%s/%d" % (free, len(fn.params))
+            verdict = frontend_free(tu, fn, rec, meth, known_meths, free, pfx)
+            if verdict[0] == "ok":
+                ck.ok("HEX-FRONTENDS", where, verdict[1], nontrivial=False)
+            elif verdict[0] == "bad":
+                ck.violation("HEX-FRONTENDS", fn.qname, where, "%s must hash its arguments and return %s() (%s)" % (free, meth, verdict[1]), fn.loc)
             else:
-                ck.violation("HEX-FRONTENDS", fn.qname, "%s/%d" % (free, len(fn.params)), "%s must hash its arguments and return %s()" % (free, meth), fn.loc)
+                raise dtable.Undecidable("%s: %s: %s" % (fn.loc, free, verdict[1]))
+
+
+def frontend_free(tu, fn, rec, meth, known_meths, free, pfx):
+    """('ok' | 'bad' | 'unknown', text) for one md5_hex-like free function"""
+    pids = [p["did"] for p in fn.params]
+    used = {x["ref"]["id"] for x in fn.nodes() if x["k"] == "DeclRefExpr"}
+    unused = [p["name"] for p in fn.params if p["did"] not in used]
+    if unused:
+        return "bad", "the parameter `%s` is never used: the result cannot depend on it" % unused[0]
+
+    def arg_params(args):
+        """parameter ids the arguments are, in order: p | T(p) | p.data() / p.size() of one parameter"""
+        out = []
+        for a in args:
+            a = match.strip_conv(a)
+            if a is None or a["k"] == "DefaultArg":
+                continue
+            d = ref_of(a)
+            if d is None and "callee" in a and a.get("member_call") and a["callee"]["name"] in ("data", "size", "length") and len(kids(a)) == 1:
+                d = ref_of(match.strip_conv(kids(a)[0]))
+                if d is not None:
+                    d = (d, a["callee"]["name"])
+            out.append(d)
+        return out
+
+    def covers(args):
+        got = arg_params(args)
+        if got == pids:
+            return True
+        # (p.data(), p.size()) of the single parameter
+        return len(pids) == 1 and len(got) == 2 and got[0] == (pids[0], "data") and got[1] in ((pids[0], "size"), (pids[0], "length"))
+
+    calls = [x for x in fn.nodes() if "callee" in x]
+    ms = [x for x in calls if x.get("member_call") and x["callee"].get("record") == rec and x["callee"]["name"] in known_meths]
+    rets = [x for x in fn.nodes() if x["k"] == "ReturnStmt"]
+
+    def returned(call):
+        return len(rets) == 1 and kids(rets[0]) and strip_tmp(kids(rets[0])[0]) is call
+    want_case = "uc" if meth.endswith("_uc") else "lc"
+    if len(ms) == 1:
+        if ms[0]["callee"]["name"] == "digest":
+            # hexdump[_lc](T(args).digest()) prints the raw digest itself
+            wraps = [x for x in calls if not x.get("member_call") and x["callee"].get("name") in HEX_CASE and
+                     any(strip_passed(a) is ms[0] for a in kids(x) if a is not None)]
+            if len(wraps) != 1 or not returned(wraps[0]):
+                return "unknown", "the raw digest() is not handed to a hexdump that is returned"
+            if HEX_CASE[wraps[0]["callee"]["name"]] != want_case:
+                return "bad", "returns %s(digest())" % wraps[0]["callee"]["name"]
+        elif ms[0]["callee"]["name"] != meth:
+            if returned(ms[0]):
+                return "bad", "returns %s()" % ms[0]["callee"]["name"]
+            return "unknown", "calls %s() and does something with the result" % ms[0]["callee"]["name"]
+        obj = kids(ms[0])[0] if kids(ms[0]) else None
+        while obj is not None and obj["k"] in ("ImplicitCastExpr", "CXXFunctionalCastExpr", "MaterializeTemporaryExpr", "CXXBindTemporaryExpr", "ParenExpr",
+                                                "ExprWithCleanups") and kids(obj):
+            obj = kids(obj)[0]
+        ctor = None
+        if obj is not None and obj["k"] in ("CXXTemporaryObjectExpr", "CXXConstructExpr") and obj.get("callee", {}).get("record") == rec:
+            ctor = obj
+        elif obj is not None and obj["k"] == "DeclRefExpr":
+            vd = [v for v in fn.nodes() if v["k"] == "VarDecl" and v.get("did") == obj["ref"]["id"]]
+            if len(vd) == 1:
+                init = kids(vd[0])[0] if kids(vd[0]) else None
+                while init is not None and init["k"] in ("ExprWithCleanups", "CXXFunctionalCastExpr", "ImplicitCastExpr", "MaterializeTemporaryExpr",
+                                                         "CXXBindTemporaryExpr") and kids(init):
+                    init = kids(init)[0]
+                if init is not None and init["k"] in ("CXXTemporaryObjectExpr", "CXXConstructExpr") and init.get("callee", {}).get("record") == rec:
+                    ctor = init
+                    if not [a for a in kids(ctor) if a is not None and a["k"] != "DefaultArg"]:
+                        procs = [x for x in calls if x.get("member_call") and x["callee"].get("record") == rec and x["callee"]["name"] == "process"
+                                 and kids(x) and ref_of(kids(x)[0]) == obj["ref"]["id"]]
+                        others = [x for x in calls if x.get("member_call") and x["callee"].get("record") == rec and x is not ms[0] and x not in procs]
+                        if len(procs) == 1 and not others and covers(kids(procs[0])[1:]) and procs[0].get("l", 0) <= ms[0].get("l", 0):
+                            return "ok", "%s h; h.process(args...); h.%s()" % (rec.split("::")[-1], meth)
+                        return "unknown", "object built with the default constructor, its process() calls are not the single call understood"
+        if ctor is None:
+            return "unknown", "the object %s() is called on is not understood" % meth
+        if covers(kids(ctor)):
+            return "ok", "%s(args...).%s()" % (rec.split("::")[-1], ms[0]["callee"]["name"])
+        return "unknown", "constructor arguments are not the function's parameters in order"
+    if not ms:
+        sib = [x for x in calls if not x.get("member_call") and x["callee"].get("qname") in ("tlx::%s_hex" % pfx, "tlx::%s_hex_uc" % pfx)]
+        if len(sib) == 1 and sib[0]["callee"].get("did") != fn.did:
+            if sib[0]["callee"]["qname"] != "tlx::" + free:
+                if returned(sib[0]):
+                    return "bad", "returns %s()" % sib[0]["callee"]["name"]
+                return "unknown", "calls %s() and does something with the result" % sib[0]["callee"]["name"]
+            if covers(kids(sib[0])):
+                return "ok", "delegates to the other overload of %s with its arguments" % free
+            return "unknown", "delegation to another overload with arguments that are not understood"
+        return "unknown", "no %s() call found" % meth
+    return "unknown", "several digest calls"
 
 
 # ---------------------------------------------------------------- constants
@@ -386,23 +801,79 @@ def md5_k():
     return out
 
 
+class _InitModel:
+    B = 64
+
+
 def state_init(tu, name):
-    fn = [f for f in tu.find(qname="tlx::%s::%s" % (name, name)) if not f.params][0]
-    vals = {}
+    """the values the default constructor leaves in state_[0 .. words): the constructor (member initialisers and body) is
+    executed on the model, whatever form the initialisation has (assignments, a loop over a table, std::copy ...)"""
+    words = DIGESTS[name]["words"]
+    fns = [f for f in tu.find(qname="tlx::%s::%s" % (name, name)) if not f.params and f.kind == "ctor"]
+    if len(fns) != 1 or fns[0].body is None:
+        raise ir.AnalysisBroken("%s: default constructor not found" % name)
+    fn = fns[0]
+    model = _InitModel()
+    sk = ClosedSkel(fn, {("field", "state_"): STATE_BASE, ("field", "curlen_"): 0, ("field", "length_"): 0, ("field", "buf_"): 0}, None,
+                    lambda e, sk_: memory_event(model, e, sk_, bytewise=False), mem_default=lambda a_: None, max_iter=256)
+    for i in fn.inits:
+        e = strip_casts(i.get("e"))
+        if i.get("field") == "state_" and e is not None:
+            if e["k"] != "InitListExpr":
+                raise dtable.Undecidable("%s: member initialiser of state_ is not a list of values" % fn.loc)
+            for j, x in enumerate(kids(e)):
+                sk.env[("mem", STATE_BASE + j)] = sk.ev(x)
+        elif i.get("delegating") or i.get("base"):
+            raise dtable.Undecidable("%s: the default constructor delegates" % fn.loc)
+    try:
+        sk.run(kids(fn.body))
+    except skel.Return:
+        pass
+    except skel.Diverges:
+        raise dtable.Undecidable("%s: a loop of the constructor does not end in the model" % fn.loc)
+    mask = (1 << (8 * DIGESTS[name]["wbytes"])) - 1
+    vals = [sk.env.get(("mem", STATE_BASE + i)) for i in range(words)]
+    for i, v in enumerate(vals):
+        if not isinstance(v, int) or isinstance(v, bool):
+            raise dtable.Undecidable("%s: the value the constructor gives state_[%d] is not understood" % (fn.loc, i))
+    extra = [k[1] - STATE_BASE for k in sk.env if isinstance(k, tuple) and k[0] == "mem" and isinstance(k[1], int) and STATE_BASE + words <= k[1] < STATE_BASE + 4 * words]
+    if extra:
+        raise dtable.Undecidable("%s: the constructor writes state_[%d], outside the %d state words" % (fn.loc, min(extra), words))
+    return [v & mask for v in vals]
+
+
+def sha1_round_constants(tu, fn):
+    """(constants, attributable): the large constants sha1_compress uses.  attributable: the order of the list is the
+    order of the rounds (four consecutive loops with one constant each, or one table of four entries indexed by the
+    round); otherwise the list is the set of distinct constants in order of appearance."""
+    def big(x):
+        c = const_int(x)
+        # masks (2^k - 1) and powers of two are not round constants
+        return c if x["k"] == "IntegerLiteral" and c is not None and c > 0xFFFF and (c & (c + 1)) != 0 and (c & (c - 1)) != 0 else None
+    lits = []
     for x in fn.nodes():
-        b = match.binop(x, ("=",))
-        if b:
-            p = match.index_parts(b[1])
-            if p and match.this_field(p[0]) == "state_":
-                vals[const_int(p[1])] = const_int(b[2])
-    return [vals.get(i) for i in range(len(vals))]
+        c = big(x)
+        if c is not None and c not in lits:
+            lits.append(c)
+    if not lits:
+        refs = {x["ref"].get("qname") for x in fn.nodes() if x["k"] == "DeclRefExpr" and x["ref"].get("kind") == "global"}
+        tabs = [t for t in tu.tables if t["qname"] in refs and len(t["values"]) == 4 and all(v is not None and int(v) > 0xFFFF for v in t["values"])]
+        if len(tabs) == 1:
+            return [int(v) for v in tabs[0]["values"]], True
+        return [], False
+    top = [x for x in kids(fn.body) if x is not None and x["k"] in ("ForStmt", "WhileStmt", "DoStmt")]
+    per = [[c for c in (big(y) for y in ir.walk(l)) if c is not None] for l in top]
+    per = [p_ for p_ in per if p_]
+    if len(per) == 4 and all(len(set(p_)) == 1 for p_ in per) and sum(len(set(p_)) for p_ in per) >= len(lits):
+        return [p_[0] for p_ in per], True
+    return lits, False
 
 
 def table_vals(tu, suffix):
     ts = [t for t in tu.tables if t["qname"].endswith(suffix)]
     if not ts:
         raise ir.AnalysisBroken("constant table %s not found in %s" % (suffix, tu.src))
-    return [int(v) for v in ts[0]["values"]]
+    return [None if v is None else int(v) for v in ts[0]["values"]]
 
 
 def check_constants(ck, tus):
@@ -412,91 +883,170 @@ def check_constants(ck, tus):
     k512 = [frac_root_bits(p, 3, 64) for p in primes(80)]
     iv512 = [frac_root_bits(p, 2, 64) for p in primes(8)]
     sha1k = [iroot(x << 60, 2) for x in (2, 3, 5, 10)]
+    def sha1_k():
+        fn = tus["SHA1"].one(qname="tlx::digest_detail::sha1_compress")
+        got1, attributable = sha1_round_constants(tus["SHA1"], fn)
+        if got1 != sha1k and not (len(got1) == 4 and (attributable or set(got1) != set(sha1k))):
+            # not the four constants, and not a list that can be laid against the four rounds: no evidence either way
+            raise dtable.Undecidable("%s: the round constants of sha1_compress were not found in a form that is understood (found %s)"
+                                     % (fn.loc, ", ".join("%#x" % c for c in got1) or "none"))
+        return got1
     checks = [
-        ("SHA256", "K", table_vals(tus["SHA256"], "::K"), k256, "first 32 bits of the fractional parts of the cube roots of the first 64 primes"),
-        ("SHA256", "IV", state_init(tus["SHA256"], "SHA256"), iv256, "fractional parts of the square roots of the first 8 primes"),
-        ("SHA512", "K", table_vals(tus["SHA512"], "::K"), k512, "first 64 bits of the fractional parts of the cube roots of the first 80 primes"),
-        ("SHA512", "IV", state_init(tus["SHA512"], "SHA512"), iv512, "fractional parts of the square roots of the first 8 primes"),
-        ("MD5", "K", table_vals(tus["MD5"], "::Korder"), md5_k(), "floor(2^32 * |sin(i + 1)|)"),
-        ("MD5", "IV", state_init(tus["MD5"], "MD5"), [0x67452301, 0xefcdab89, 0x98badcfe, 0x10325476], "bytes 01 23 .. ef / fe dc .. 10 little-endian"),
-        ("SHA1", "IV", state_init(tus["SHA1"], "SHA1"), [0x67452301, 0xefcdab89, 0x98badcfe, 0x10325476, 0xc3d2e1f0], "FIPS 180 initial hash value"),
+        ("SHA256", "K", lambda: table_vals(tus["SHA256"], "::K"), k256, "first 32 bits of the fractional parts of the cube roots of the first 64 primes"),
+        ("SHA256", "IV", lambda: state_init(tus["SHA256"], "SHA256"), iv256, "fractional parts of the square roots of the first 8 primes"),
+        ("SHA512", "K", lambda: table_vals(tus["SHA512"], "::K"), k512, "first 64 bits of the fractional parts of the cube roots of the first 80 primes"),
+        ("SHA512", "IV", lambda: state_init(tus["SHA512"], "SHA512"), iv512, "fractional parts of the square roots of the first 8 primes"),
+        ("MD5", "K", lambda: table_vals(tus["MD5"], "::Korder"), md5_k(), "floor(2^32 * |sin(i + 1)|)"),
+        ("MD5", "IV", lambda: state_init(tus["MD5"], "MD5"), [0x67452301, 0xefcdab89, 0x98badcfe, 0x10325476], "bytes 01 23 .. ef / fe dc .. 10 little-endian"),
+        ("SHA1", "IV", lambda: state_init(tus["SHA1"], "SHA1"), [0x67452301, 0xefcdab89, 0x98badcfe, 0x10325476, 0xc3d2e1f0], "FIPS 180 initial hash value"),
+        ("SHA1", "K", sha1_k, sha1k, "floor(2^30 * sqrt(2, 3, 5, 10))"),
     ]
-    fn = tus["SHA1"].one(qname="tlx::digest_detail::sha1_compress")
-    got1 = []
-    for x in fn.nodes():
-        c = const_int(x)
-        if x["k"] == "IntegerLiteral" and c is not None and c > 0xFFFF:
-            if c not in got1:
-                got1.append(c)
-    checks.append(("SHA1", "K", got1, sha1k, "floor(2^30 * sqrt(2, 3, 5, 10))"))
-    for name, what, got, want, how in checks:
+
+    def one(name, what, getter, want, how):
+        got = getter()
         if got == want:
             ck.ok("CONST-TABLES", "%s %s" % (name, what), "%d constants equal %s (recomputed with integer arithmetic)" % (len(want), how))
         else:
+            if any(v is None for v in got):
+                raise dtable.Undecidable("%s %s: an entry of the table is not a compile-time integer" % (name, what))
             idx = [i for i in range(min(len(got), len(want))) if got[i] != want[i]]
             ck.violation("CONST-TABLES", "tlx::%s" % name, "%s:%s" % (name, what),
                          "%s constant table differs from its definition (%s)%s" % (what, how, (": entry %d is %#x, must be %#x" % (idx[0], got[idx[0]], want[idx[0]])) if idx else ": wrong length %d" % len(got)),
                          DIGESTS[name]["file"])
+    for c in checks:
+        ck.guarded(lambda c=c: one(*c))
     # MD5 shift / word schedules
     t = tus["MD5"]
-    r = table_vals(t, "::Rorder")
-    w = table_vals(t, "::Worder")
     wr = [7, 12, 17, 22] * 4 + [5, 9, 14, 20] * 4 + [4, 11, 16, 23] * 4 + [6, 10, 15, 21] * 4
     ww = [i for i in range(16)] + [(5 * i + 1) % 16 for i in range(16)] + [(3 * i + 5) % 16 for i in range(16)] + [(7 * i) % 16 for i in range(16)]
-    for what, got, want in (("rotation schedule", r, wr), ("message word schedule", w, ww)):
+
+    def sched(what, suffix, want):
+        got = table_vals(t, suffix)
+        if any(v is None for v in got):
+            raise dtable.Undecidable("MD5 %s: an entry of the table is not a compile-time integer" % what)
         if got == want:
             ck.ok("CONST-TABLES", "MD5 " + what, "64 entries equal RFC 1321")
         else:
             ck.violation("CONST-TABLES", "tlx::MD5", "MD5:" + what.replace(" ", "-"), "MD5 %s differs from RFC 1321" % what, "tlx/digest/md5.cpp")
+    ck.guarded(lambda: sched("rotation schedule", "::Rorder", wr))
+    ck.guarded(lambda: sched("message word schedule", "::Worder", ww))
 
 
 # ---------------------------------------------------------------- boolean / rotation functions
-def word_eval(tu, fn, args, width):
-    """evaluate a pure word function (xor/and/or/not/shift/rotate and calls of such functions) on integers"""
+TYPE_BITS = {"int": (32, True), "unsigned int": (32, False), "long": (64, True), "unsigned long": (64, False), "long long": (64, True),
+             "unsigned long long": (64, False), "short": (16, True), "unsigned short": (16, False), "char": (8, True), "signed char": (8, True),
+             "unsigned char": (8, False), "bool": (1, False)}        # bits, signed
+
+
+def word_eval(tu, fn, args, width, depth=0):
+    """evaluate a pure word function (xor/and/or/not/shift/rotate, calls of such functions, straight-line locals and
+    ?: / if on known values) on integers; anything else: Undecidable"""
     mask = (1 << width) - 1
     env = {p["did"]: a for p, a in zip(fn.params, args)}
+    if fn.body is None or depth > 6:
+        raise dtable.Undecidable("%s: word function without a body that can be followed" % fn.loc)
+
+    class Ret(Exception):
+        def __init__(self, v):
+            self.v = v
 
     def ev(e):
-        e = strip_casts(e)
+        e = match.strip_conv(e)
+        while e is not None and e["k"] in ("ParenExpr", "ExprWithCleanups", "MaterializeTemporaryExpr", "ConstantExpr") and kids(e):
+            e = match.strip_conv(kids(e)[0])
         c = const_int(e)
         if c is not None and e["k"] == "IntegerLiteral":
             return c
         if e["k"] == "DeclRefExpr" and e["ref"]["id"] in env:
-            return env[e["ref"]["id"]]
-        if e["k"] == "UnaryOperator" and e["op"] == "~":
-            return (~ev(kids(e)[0])) & mask
-        b = match.binop(e, ("&", "|", "^", ">>", "<<", "+"))
+            v = env[e["ref"]["id"]]
+            if v is None:
+                raise dtable.Undecidable("%s: local %s read before it has a value" % (fn.loc, e["ref"]["name"]))
+            return v
+        if e["k"] == "DeclRefExpr" and c is not None:
+            return c
+        if e["k"] == "UnaryOperator" and e["op"] in ("~", "-"):
+            if TYPE_BITS.get(e.get("ty"), (width,))[0] != width:
+                raise dtable.Undecidable("%s: `%s` in type %s inside a %d-bit word function" % (fn.loc, e["op"], e.get("ty"), width))
+            v = ev(kids(e)[0])
+            return (~v if e["op"] == "~" else -v) & mask
+        if e["k"] == "UnaryOperator" and e["op"] == "+":
+            return ev(kids(e)[0])
+        if e["k"] == "ConditionalOperator" and len(kids(e)) == 3:
+            return ev(kids(e)[1]) if ev(kids(e)[0]) else ev(kids(e)[2])
+        if e["k"] == "BinaryOperator" and e["op"] == "=" and ref_of(kids(e)[0]) in env:
+            v = ev(kids(e)[1])
+            env[ref_of(kids(e)[0])] = v
+            return v
+        if e["k"] == "BinaryOperator" and e["op"] == ",":
+            ev(kids(e)[0])
+            return ev(kids(e)[1])
+        if e["k"] == "CompoundAssignOperator" and ref_of(kids(e)[0]) in env and e["op"][:-1] in ("&", "|", "^", ">>", "<<", "+", "-"):
+            v = arith(e["op"][:-1], ev(kids(e)[0]), ev(kids(e)[1]), e.get("ty"))
+            env[ref_of(kids(e)[0])] = v
+            return v
+        b = match.binop(e, ("&", "|", "^", ">>", "<<", "+", "-", "==", "!=", "<", ">", "<=", ">="))
         if b and e["k"] == "BinaryOperator":
-            x, y = ev(b[1]), ev(b[2])
-            op = b[0]
-            if op == "&":
-                return x & y
-            if op == "|":
-                return x | y
-            if op == "^":
-                return x ^ y
-            if op == "+":
-                return (x + y) & mask
-            if y < 0 or y >= width:
-                raise dtable.Undecidable("%s: shift by %d in a %d-bit word function" % (fn.loc, y, width))
-            return (x >> y) if op == ">>" else (x << y) & mask
-        if "callee" in e:
+            return arith(b[0], ev(b[1]), ev(b[2]), e.get("ty"))
+        if "callee" in e and e["k"] == "CallExpr":
             nm = e["callee"]["name"]
-            a = [ev(x) for x in kids(e)]
-            if nm in ("ror32", "ror64"):
-                w = 32 if nm == "ror32" else 64
+            a = [ev(x) for x in kids(e) if x is not None and x["k"] != "DefaultArg"]
+            if nm in ("ror32", "ror64", "rol32", "rol64") and len(a) == 2:
+                w = 32 if nm.endswith("32") else 64
                 k = a[1] % w
+                if nm.startswith("rol"):
+                    k = (w - k) % w
                 return ((a[0] >> k) | (a[0] << (w - k))) & ((1 << w) - 1)
-            if nm in ("rol32", "rol64"):
-                w = 32 if nm == "rol32" else 64
-                k = a[1] % w
-                return ((a[0] << k) | (a[0] >> (w - k))) & ((1 << w) - 1)
             callee = tu.by_did.get(e["callee"]["did"])
-            if callee is not None:
-                return word_eval(tu, callee, a, width)
+            if callee is not None and callee.body is not None and len(callee.params) == len(a):
+                return word_eval(tu, callee, a, width, depth + 1)
         raise dtable.Undecidable("%s: not a pure word expression: %s" % (fn.loc, dtable.describe(e)))
-    rets = [x for x in fn.nodes() if x["k"] == "ReturnStmt"]
-    return ev(kids(rets[0])[0]) & mask
+
+    def arith(op, x, y, ty=None):
+        if op in ("+", "-", "<<") and TYPE_BITS.get(ty, (width,))[0] != width:
+            raise dtable.Undecidable("%s: `%s` in type %s inside a %d-bit word function" % (fn.loc, op, ty, width))
+        if op == "&":
+            return x & y
+        if op == "|":
+            return x | y
+        if op == "^":
+            return x ^ y
+        if op == "+":
+            return (x + y) & mask
+        if op == "-":
+            return (x - y) & mask
+        if op in ("==", "!=", "<", ">", "<=", ">="):
+            return int({"==": x == y, "!=": x != y, "<": x < y, ">": x > y, "<=": x <= y, ">=": x >= y}[op])
+        if y < 0 or y >= width:
+            raise dtable.Undecidable("%s: shift by %d in a %d-bit word function" % (fn.loc, y, width))
+        return (x >> y) if op == ">>" else (x << y) & mask
+
+    def run(s):
+        if s is None or s["k"] == "NullStmt":
+            return
+        if s["k"] == "CompoundStmt":
+            for x in kids(s):
+                run(x)
+        elif s["k"] == "DeclStmt":
+            for v in kids(s):
+                if v["k"] != "VarDecl" or (v.get("ty") or "").rstrip().endswith("]"):
+                    raise dtable.Undecidable("%s: declaration in a word function that is not understood" % fn.loc)
+                if TYPE_BITS.get((v.get("ty") or "").replace("const ", "").strip(), (width,))[0] != width:
+                    raise dtable.Undecidable("%s: local of type %s inside a %d-bit word function" % (fn.loc, v.get("ty"), width))
+                env[v["did"]] = (ev(kids(v)[0]) & mask) if kids(v) else None
+        elif s["k"] == "ReturnStmt":
+            raise Ret(ev(kids(s)[0]) if kids(s) else None)
+        elif s["k"] == "IfStmt" and not s.get("init") and not s.get("condvar"):
+            run(kids(s)[1] if ev(kids(s)[0]) else (kids(s)[2] if len(kids(s)) > 2 else None))
+        elif s["k"] in ("BinaryOperator", "CompoundAssignOperator", "ParenExpr", "ExprWithCleanups"):
+            ev(s)
+        else:
+            raise dtable.Undecidable("%s: %s in a word function" % (fn.loc, s["k"]))
+    try:
+        run(fn.body)
+    except Ret as r_:
+        if isinstance(r_.v, int):
+            return r_.v & mask
+    raise dtable.Undecidable("%s: the word function does not return a value that is understood" % fn.loc)
 
 
 def rot(x, k, w):
@@ -514,45 +1064,54 @@ LIN = {
 }
 
 
+MIXED = (0x0123456789abcdef, 0xfedcba9876543210, 0xa5a5a5a55a5a5a5a, 0x0f1e2d3c4b5a6978, 0x8000000000000001)
+
+
 def check_functions(ck, tus):
+    def boolfn(name, tu, fnm, w):
+        fns = [f for f in tu.functions if f.name == fnm and len(f.params) == 3 and f.record is None and f.body is not None]
+        ck.require(len(fns) == 1, "%s: boolean function %s not found" % (name, fnm))
+        mask = (1 << w) - 1
+        bad = None
+        rows = [[(-(bits >> i & 1)) & mask for i in (2, 1, 0)] for bits in range(8)]
+        rows += [[MIXED[i] & mask, MIXED[(i + 1) % 5] & mask, MIXED[(i + 2) % 5] & mask] for i in range(5)]
+        for n, (x, y, z) in enumerate(rows):
+            got = word_eval(tu, fns[0], [x, y, z], w)
+            want = BOOL3[fnm](x, y, z) & mask
+            if got != want and bad is None:
+                bad = "row x,y,z = %s" % ((n >> 2 & 1, n >> 1 & 1, n & 1),) if n < 8 else "x,y,z = %#x, %#x, %#x gives %#x, must be %#x" % (x, y, z, got, want)
+        if bad:
+            ck.violation("BOOLFN-TABLES", fns[0].qname, "%s:%s" % (name, fnm), "%s %s(x,y,z) has the wrong truth table (%s)" % (name, fnm, bad), fns[0].loc)
+        else:
+            ck.ok("BOOLFN-TABLES", "%s %s" % (name, fnm), "8-row truth table equals the standard's definition (all bits alike), and 5 mixed words agree")
+
+    def rotfn(name, tu, fnm, w, rots, sh):
+        fns = [f for f in tu.functions if f.name == fnm and len(f.params) == 1 and f.record is None and f.body is not None]
+        ck.require(len(fns) == 1, "%s: %s not found" % (name, fnm))
+        mask = (1 << w) - 1
+        bad = None
+        for j, x in [(j, 1 << j) for j in range(w)] + [("s of %#x" % (v & mask), v & mask) for v in MIXED] + [("s (none set)", 0)]:
+            got = word_eval(tu, fns[0], [x], w)
+            want = 0
+            for r_ in rots:
+                want ^= rot(x, r_, w)
+            if sh is not None:
+                want ^= x >> sh
+            if got != want and bad is None:
+                bad = j
+        if bad is not None:
+            ck.violation("ROT-SETS", fns[0].qname, "%s:%s" % (name, fnm), "%s %s is not ROTR%s%s (differs on input bit %s)" % (name, fnm, list(rots), " ^ SHR%d" % sh if sh else "", bad), fns[0].loc)
+        else:
+            ck.ok("ROT-SETS", "%s %s" % (name, fnm), "equal to ROTR%s%s on all %d basis inputs, zero and 5 mixed words" % (list(rots), " ^ SHR%d" % sh if sh else "", w))
+
     for name, tu in tus.items():
         w = 64 if name == "SHA512" else 32
         fam = {"MD5": ("F", "G", "H", "I"), "SHA1": ("F0", "F1", "F2", "F3"), "SHA256": ("Ch", "Maj"), "SHA512": ("Ch", "Maj")}[name]
         for fnm in fam:
-            fns = [f for f in tu.functions if f.name == fnm and len(f.params) == 3 and f.record is None]
-            ck.require(len(fns) == 1, "%s: boolean function %s not found" % (name, fnm))
-            bad = None
-            for bits in range(8):
-                x, y, z = [(-(bits >> i & 1)) & ((1 << w) - 1) for i in (2, 1, 0)]
-                got = word_eval(tu, fns[0], [x, y, z], w)
-                want = BOOL3[fnm](x, y, z) & ((1 << w) - 1)
-                if got != want:
-                    bad = (bits >> 2 & 1, bits >> 1 & 1, bits & 1)
-            if bad:
-                ck.violation("BOOLFN-TABLES", fns[0].qname, "%s:%s" % (name, fnm), "%s %s(x,y,z) has the wrong truth table (row x,y,z = %s)" % (name, fnm, bad), fns[0].loc)
-            else:
-                ck.ok("BOOLFN-TABLES", "%s %s" % (name, fnm), "8-row truth table equals the standard's definition (bitwise function, all bits alike)")
+            ck.guarded(lambda fnm=fnm: boolfn(name, tu, fnm, w))
         for (dg, fnm), (rots, sh) in LIN.items():
-            if dg != name:
-                continue
-            fns = [f for f in tu.functions if f.name == fnm and len(f.params) == 1 and f.record is None]
-            ck.require(len(fns) == 1, "%s: %s not found" % (name, fnm))
-            bad = None
-            for j in range(w):
-                x = 1 << j
-                got = word_eval(tu, fns[0], [x], w)
-                want = 0
-                for r_ in rots:
-                    want ^= rot(x, r_, w)
-                if sh is not None:
-                    want ^= x >> sh
-                if got != want:
-                    bad = j
-            zero = word_eval(tu, fns[0], [0], w)
-            if bad is not None or zero != 0:
-                ck.violation("ROT-SETS", fns[0].qname, "%s:%s" % (name, fnm), "%s %s is not ROTR%s%s (differs on input bit %s)" % (name, fnm, list(rots), " ^ SHR%d" % sh if sh else "", bad), fns[0].loc)
-            else:
-                ck.ok("ROT-SETS", "%s %s" % (name, fnm), "GF(2)-linear and equal to ROTR%s%s on all %d basis inputs" % (list(rots), " ^ SHR%d" % sh if sh else "", w))
+            if dg == name:
+                ck.guarded(lambda fnm=fnm, rots=rots, sh=sh: rotfn(name, tu, fnm, w, rots, sh))
 
 
 # ---------------------------------------------------------------- siphash
@@ -577,9 +1136,43 @@ def bits_alg(op, a, b, e):
         x, y = norm(a), norm(b)
         if x is None or y is None:
             return None
-        if {sh for sh, _ in x[2]} & {sh for sh, _ in y[2]}:
-            return None
+        # OR is exact whatever overlaps: the value is the constant part OR-ed with every (label << shift) of the set
         return ("bits", x[1] | y[1], x[2] | y[2])
+    return None
+
+
+def value_bits(e, length_did):
+    """an upper bound for the number of significant bits of an unsigned expression built from message bytes; None: unknown"""
+    e0 = e
+    e = strip_casts(e)
+    while e is not None and e["k"] == "ParenExpr" and kids(e):
+        e = strip_casts(kids(e)[0])
+    if e is None:
+        return None
+    c = const_int(e)
+    if c is not None and c >= 0:
+        return c.bit_length()
+    tb = TYPE_BITS.get((e.get("ty") or "").replace("const ", "").strip())
+    if e["k"] in ("ArraySubscriptExpr",) or (e["k"] == "UnaryOperator" and e.get("op") == "*"):
+        return tb[0] if tb and not tb[1] else None
+    if e["k"] == "BinaryOperator":
+        op = e.get("op")
+        l, r = value_bits(kids(e)[0], length_did), value_bits(kids(e)[1], length_did)
+        if op == "&":
+            return min(x for x in (l, r) if x is not None) if (l is not None or r is not None) else None
+        if op in ("|", "^"):
+            return max(l, r) if l is not None and r is not None else None
+        if op == "<<":
+            sh = const_int(kids(e)[1])
+            return l + sh if l is not None and sh is not None else None
+        if op == ">>":
+            sh = const_int(kids(e)[1])
+            return max(l - sh, 0) if l is not None and sh is not None else None
+        if op == "+":
+            return max(l, r) + 1 if l is not None and r is not None else None
+        return None
+    if e["k"] == "DeclRefExpr":
+        return tb[0] if tb and not tb[1] else None
     return None
 
 
@@ -603,35 +1196,76 @@ def check_siphash(ck):
                 sk.run(kids(fn.body))
             except skel.Return:
                 pass
+            except (skel.Diverges, TypeError) as t:
+                raise dtable.Undecidable("%s: the skeleton of the function could not be evaluated for a message of %d bytes (%s)" % (fn.loc, n, type(t).__name__))
             finals[n] = sk.env
         locals_ = [v for v in fn.nodes() if v["k"] == "VarDecl" and v.get("did") is not None and v["did"] not in (m, length)]
 
         def hi(v):
             return (v[1] if isinstance(v, tuple) and v and v[0] == "bits" else v if isinstance(v, int) and not isinstance(v, bool) else -1) >> 56
-        cand = [v for v in locals_ if all(hi(finals[n].get(v["did"])) == (n & 255) for n in range(1, 17))]
-        ck.require(len(cand) == 1, "%s: the final word (length byte << 56) not found among the locals" % fn.loc)
-        last = cand[0]
-        for n in range(0, 17):
-            blocks = n & ~7
-            want = ("bits", (n & 255) << 56, frozenset((8 * j, ("M", blocks + j)) for j in range(n - blocks)))
-            got = finals[n].get(last["did"])
-            if isinstance(got, int):
+
+        def val(n, v):
+            got = finals[n].get(v["did"])
+            if isinstance(got, int) and not isinstance(got, bool):
                 got = ("bits", got, frozenset())
-            if got != want:
-                def show(v):
-                    if not (isinstance(v, tuple) and v and v[0] == "bits"):
-                        return "not a combination of message bytes"
-                    return "length byte %#x, " % (v[1] >> 56) + ("bytes " + ", ".join("m[%s] << %d" % (l[1], sh) for sh, l in sorted(v[2])) if v[2] else "no bytes")
-                bad.append(("tail%d" % (n & 7), "for a message of %d bytes the final word is {%s}; SipHash needs {%s}" % (n, show(got), show(want)), last))
-                break
+            return got
+
+        def want_for(n):
+            blocks = n & ~7
+            return ("bits", (n & 255) << 56, frozenset((8 * j, ("M", blocks + j)) for j in range(n - blocks)))
+
+        def show(v):
+            if not (isinstance(v, tuple) and v and v[0] == "bits"):
+                return "not a combination of message bytes"
+            return "length byte %#x, " % (v[1] >> 56) + ("bytes " + ", ".join("m[%s] << %d" % (l[1], sh) for sh, l in sorted(v[2])) if v[2] else "no bytes")
+
+        def first_wrong(v):
+            return next((n for n in range(0, 17) if val(n, v) != want_for(n)), None)
+
+        def partial(v):
+            """never a wrong byte, only bytes / the length still missing: an intermediate of the assembly"""
+            for n in range(0, 17):
+                g, w = val(n, v), want_for(n)
+                if not (isinstance(g, tuple) and g and g[0] == "bits" and g[2] <= w[2] and (g[1] | w[1]) == w[1]):
+                    return False
+            return True
+        # the final word: a local that carries the length byte in bits 56.. for every length; failing that, the only local
+        # that is assembled from message bytes of the tail
+        cand = [v for v in locals_ if all(hi(finals[n].get(v["did"])) == (n & 255) for n in range(1, 17))]
+        if not cand:
+            cand = [v for v in locals_ if all(isinstance(val(n, v), tuple) and val(n, v)[0] == "bits" and val(n, v)[2] and
+                                              all(isinstance(l, tuple) and l[0] in ("M", "OOB") for _, l in val(n, v)[2]) for n in range(1, 17) if n & 7)]
+            ck.require(len(cand) == 1, "%s: the final word (length byte << 56 | tail bytes) not found among the locals" % fn.loc)
+        good = [v for v in cand if first_wrong(v) is None]
+        wrong = [v for v in cand if first_wrong(v) is not None and not partial(v)]
+        if not good and len(cand) == 1:
+            n = first_wrong(cand[0])
+            bad.append(("tail%d" % (n & 7), "for a message of %d bytes the final word is {%s}; SipHash needs {%s}" % (n, show(val(n, cand[0])), show(want_for(n))), cand[0]))
+        elif not good or wrong:
+            # several words carry the length byte and none / not all of them is the word SipHash needs: which one is hashed is dataflow
+            raise dtable.Undecidable("%s: %d locals carry the length byte, the one that is hashed could not be told apart" % (fn.loc, len(cand)))
         for y in fn.nodes():
-            if y["k"] == "BinaryOperator" and y.get("op") == "<<":
+            if y["k"] in ("BinaryOperator", "CompoundAssignOperator") and y.get("op") in ("<<", "<<="):
                 lhs = kids(y)[0]
                 from_bytes = any((z["k"] == "ArraySubscriptExpr" and "char" in (strip_casts(kids(z)[0]).get("ty") or "")) or
+                                 (z["k"] == "UnaryOperator" and z.get("op") == "*" and "char" in (strip_casts(kids(z)[0]).get("ty") or "")) or
                                  (z["k"] == "DeclRefExpr" and z["ref"]["id"] == length) for z in ir.walk(lhs))
-                if from_bytes and y.get("ty") not in ("unsigned long", "unsigned long long"):
-                    bad.append(("shift-width", "a message byte / the length is shifted in type `%s`: the shift is done in (signed) int, bytes >= 0x80 sign-extend "
-                                "into the upper half (or bits are lost)" % y.get("ty"), y))
+                if not from_bytes:
+                    continue
+                tb = TYPE_BITS.get((y.get("ty") or "").replace("const ", "").strip())
+                if tb is None:
+                    raise dtable.Undecidable("%s: a message byte / the length is shifted in a type that is not understood (`%s`)" % (fn.nloc(y), y.get("ty")))
+                if tb[0] >= 64 and not tb[1]:
+                    continue
+                sh = const_int(kids(y)[1])
+                need = value_bits(lhs, length)
+                if sh is None or need is None:
+                    raise dtable.Undecidable("%s: a message byte / the length is shifted in `%s` by an amount / from a value that is not a compile-time fact"
+                                             % (fn.nloc(y), y.get("ty")))
+                room = tb[0] - (1 if tb[1] else 0)
+                if need + sh > room:
+                    bad.append(("shift-width", "a message byte / the length is shifted in type `%s`: a %d-bit value shifted by %d does not fit the %d value bits of that "
+                                "type; bytes >= 0x80 sign-extend into the upper half (or bits are lost)" % (y.get("ty"), need, sh, room), y))
         for sig, msg, node in bad[:4]:
             ck.violation("SIP-TAIL", fn.qname, "%s:%s" % (name, sig), msg, fn.nloc(node))
         if not bad:
@@ -660,6 +1294,14 @@ def check_simd_alignment(ck, tu):
                         any(x["k"] == "DeclRefExpr" and x["ref"]["id"] in pids for x in ir.walk(kids(v)[0])):
                     pids.add(v["did"])
                     changed = True
+                b = match.binop(v, ("=",)) if v["k"] == "BinaryOperator" else None
+                if b and ref_of(b[1]) is not None and ref_of(b[1]) not in pids and "*" in (strip_casts(b[1]).get("ty") or "") and \
+                        any(x["k"] == "DeclRefExpr" and x["ref"]["id"] in pids for x in ir.walk(b[2])):
+                    pids.add(ref_of(b[1]))
+                    changed = True
+        # a function that looks at the numeric value of such a pointer may select the aligned access for aligned callers only
+        tests_alignment = any(x.get("cast") == "PointerToIntegral" and any(y["k"] == "DeclRefExpr" and y["ref"]["id"] in pids for y in ir.walk(x))
+                              for x in fn.nodes())
         for z in fn.nodes():
             if "callee" not in z:
                 continue
@@ -669,6 +1311,9 @@ def check_simd_alignment(ck, tu):
             n += 1
             addr = kids(z)[0] if kids(z) else None
             from_param = addr is not None and any(x["k"] == "DeclRefExpr" and x["ref"]["id"] in pids for x in ir.walk(addr))
+            if nm in ALIGNED_SIMD and from_param and tests_alignment:
+                raise dtable.Undecidable("%s: %s() through a parameter pointer in a function that inspects the pointer's value: whether the "
+                                         "aligned access is guarded is not decided" % (fn.nloc(z), nm))
             if nm in ALIGNED_SIMD and from_param:
                 ck.violation("SIMD-ALIGNMENT", fn.qname, "%s:%s" % (fn.name, nm),
                              "%s() requires a %d-byte aligned address but reads through %s, which comes from a byte-pointer parameter of arbitrary "
@@ -681,23 +1326,26 @@ def check_simd_alignment(ck, tu):
 
 def run(ck):
     ck.explanation = (
-        "The compression functions are covered by the suite's vectors; the chunking/padding skeleton is decided structurally: for each of the four "
-        "process() loops a linear effect summary per path shows d(length_) + 8 d(curlen_) + 8 d(size) = 0 (with the guard equality curlen_ == "
-        "block_size substituted on the flush path), direct compression only with an empty buffer, copy length min(size, block - curlen_), buffer "
-        "reset after a flush; finalize(): length added first, 0x80, extra block iff curlen_ > block - L, fills and the byte order of the length and "
-        "state stores (evaluated from the store helpers' shift schedules). Constant tables are recomputed from their defining formulas with integer "
-        "arithmetic; boolean functions by truth table; Sigma/Gamma functions on all basis vectors (GF(2)-linear). SipHash: tail switch table, 64-bit "
-        "shift width, twin agreement, no aligned vector access through the caller's byte pointers (SIMD-ALIGNMENT). Not decided: the compression dataflow itself and SSE2 == portable beyond the tail.")
+        "The compression functions are covered by the suite's vectors; the chunking/padding skeleton is decided by evaluation on a byte model: "
+        "process() for 32 (buffer fill, input size) cases and finalize() for every buffer fill, with labelled bytes; the compression calls are "
+        "observed (which bytes, in which order), everything else (copy loops, std::copy/fill/memcpy, store helpers, private helpers) is executed. "
+        "A violation is always one concrete case of that evaluation; a statement the evaluation does not understand ends it with `cannot decide`. "
+        "Constant tables are recomputed from their defining formulas with integer arithmetic (the IV from the executed constructor); boolean "
+        "functions by truth table plus mixed words; Sigma/Gamma functions on all basis vectors plus mixed words. Hex front ends: finalize / hexdump "
+        "counts on every path. SipHash: final word for lengths 0..16 from the integer skeleton, shifts of message bytes must fit their type, no "
+        "aligned vector access through the caller's byte pointers (SIMD-ALIGNMENT). Not decided: the compression dataflow itself and SSE2 == "
+        "portable beyond the tail.")
     tus = {}
     for name, info in DIGESTS.items():
         tu = ir.extract(info["file"])
         tus[name] = tu
-        check_process(ck, tu, name, info)
-        check_finalize(ck, tu, name, info)
-        check_frontends(ck, tu, name, info)
-    check_constants(ck, tus)
-    check_functions(ck, tus)
-    check_siphash(ck)
+        # each rule on its own: one that cannot decide does not hide what another one establishes
+        ck.guarded(lambda: check_process(ck, tu, name, info))
+        ck.guarded(lambda: check_finalize(ck, tu, name, info))
+        ck.guarded(lambda: check_frontends(ck, tu, name, info))
+    ck.guarded(lambda: check_constants(ck, tus))
+    ck.guarded(lambda: check_functions(ck, tus))
+    ck.guarded(lambda: check_siphash(ck))
     ck.floor("SIMD-ALIGNMENT", 2)
     ck.floor("PROCESS-CONSERVE", 4)
     ck.floor("PROCESS-STREAM", 4)
